@@ -412,7 +412,7 @@ theorem ColForm.build_tables_refs (F : ColForm σ) (ap : Bool) (ts : List (FTab 
       simp [F.norefs]
     rw [refBlueprints_append, h1, refBlueprints_refElems]
     simp [List.map_map, Function.comp_def]
-  have hF := F.foldlM_tables ap ts [] (by simpa using hr.tnames) hok
+  have hF := F.foldlM_tables ap [] ts [] (by simpa using hr.tnames) hok (fun t _ => F.noShadow_nil t)
   simp only [List.map_nil, List.nil_append] at hF
   have hRf := F.foldlM_refs ts hr { tables := ts.map F.mkTable, enums := [], allowProps := ap, groups := [], sticky := [], project := none }
     rfl rs [] (by simpa using hin) (by simpa using hnd)
@@ -474,7 +474,7 @@ theorem ColForm.renderDb_tables_refs (F : ColForm σ) (ap : Bool) (ts : List (FT
       = .ok (ts.map fun t => F.tabText t) := by
     have := range_mapM_form F.mkTable "table position" (fun t => F.tabText t) ts
       (fun i t => Dbml.renderTableBody (F.mkDb ap ts rs) i t)
-      (fun i t ht => F.renderTableBody_ok ap _ (rs.map mkRef) hni i t.name t.cols t.comment (hok t ht).2.1 (hok t ht).2.2.1 (hok t ht).2.2.2)
+      (fun i t ht => F.renderTableBody_ok (F.mkDb ap ts rs) hni i t.name t.cols t.comment (hok t ht).2.1 (hok t ht).2.2.1 (hok t ht).2.2.2)
     unfold Dbml.renderTable
     exact this
   have hrefs : ((F.mkDb ap ts rs).refs.filter (!·.inline)).mapM (Dbml.renderRef (F.mkDb ap ts rs))
